@@ -297,7 +297,8 @@ def c05_trace_params(exe):
     if os.path.exists(pts):
         for l in open(pts):
             f = l.split()
-            if len(f) >= 4 and f[1].startswith("sync.go:"):
+            fn = [x[3:] for x in f[5:] if x.startswith("fn=")]
+            if len(f) >= 4 and (fn[0] == "WaitCond" if fn else f[1].startswith("sync.go:")):   # wherever WaitCond lives
                 found.setdefault(f[3], []).append(int(f[0]))
     other = sorted(k for k in found if k not in want)
     # the context check may be written more than once (e.g. once before the loop and once after each wake-up): every copy is
@@ -864,7 +865,8 @@ PROPS["C15"] = dict(
          " C15REG also subscribes with no / live / already cancelled contexts (a rejected duplicate must not replace the registered context) and checks that a publish blocked on SubscribeCancel subscriptions returns when their cancel functions are called.",
     stages=[corr_stage("C15K1", 2500, 6000, feature=feat_c15, seeds=3),
             corr_stage("C15REG", 2500, 5000, feature=feat_c15, seeds=2),
-            corr_stage("C15K2", 100, 800, validate=False, seeds=2)],
+            corr_stage("C15K2", 100, 800, validate=False, seeds=2),
+            corr_stage("C15UNSUB", 300, 1500, validate=False, seeds=2)],
 )
 
 
@@ -889,6 +891,7 @@ _EXCL_STAGES = lambda: [
     corr_stage("C09K2", 800, 5000, feature=feat_c09, seeds=3),
     corr_stage("C09S", 6, 20, feature=feat_c09, instrument=True, shards=6, tparams={"points": 1000}),
     corr_stage("C09RATE", 150, 1500, validate=False),
+    corr_stage("C10SHAREDOPT", 25, 150, validate=False),
 ]
 
 PROPS["C09"] = dict(
